@@ -105,6 +105,21 @@ claim("C20", "sched",
       "trusted fake Dask client (FIFO scatter/gather RPCs, explorer-driven task completion); producers await emit; <=4 elements; deviations <=1 quick / <=2 thorough; local references computed on a real background loop before exploration",
       "DESIGN.md §3 C20")
 
+claim("C01", "seqbfs",
+      "explicit-state BFS over input sequences on the real synchronous pipelines, reference interpreter with provenance as oracle, canonical-state dedup",
+      "About 1700 programs from a typed node grammar (all chains of <= 2 nodes over the full parameter menu incl. boundary ones, fan-out in both attachment orders, fan-in of two entry points / two branches of one "
+      "entry through 11 join variants followed by <= 1 node, 3-input joins, three unique-guarded feedback programs); for each, every input sequence over {1,2,3} at every entry point (+flush) to depth 4 (5 thorough) "
+      "is replayed on fresh real objects; after every step the global sequence of (recorder, value) events must equal the reference interpreter's (subsumes loss, duplication, reordering, sibling order).",
+      "user functions stateless; chains <= 2 nodes (3 with a reduced third menu in thorough); depth <= 5; dedup key = reference state + snapshot of every real node's instance dictionary",
+      "DESIGN.md §3 C01")
+
+claim("C10", "seqbfs",
+      "explicit-state BFS over input sequences with 0/1/2 metadata dicts per element (part of the alphabet), provenance of the reference interpreter as oracle",
+      "The C01 program space; every recorder event's metadata must be a flat list of dicts identical by object identity to the concatenation, in provenance order, of the metadata of the contributing inputs "
+      "(one-to-one unchanged, batches/tuples in member order, one-to-many on the last piece, elements without metadata contribute nothing).",
+      "depth 3 quick / 4 thorough over values {1,2} x {0,1,2} dicts; timing nodes are covered through the C04/C05 scenario recorders only as far as reference counts are concerned",
+      "DESIGN.md §3 C10")
+
 ALL = ["C%02d" % i for i in range(1, 21)]
 
 
